@@ -41,8 +41,9 @@ OUTPUT_FORCE_UNIT = {
 PEER_CALCULATORS = sorted(OUTPUT_FORCE_UNIT)
 CARRIES_POSITIONS = {"vasp"}
 # interfaces whose writer/reader pair can be exercised offline (cp2k needs cp2k-input-tools; crystal's reader parses
-# CRYSTAL *output*, not the input its writer produces; wien2k needs a symmetry-reduced struct file)
-STRUCTURE_ROUNDTRIP = ["vasp", "abinit", "qe", "elk", "siesta", "dftbp", "turbomole", "aims", "castep", "abacus", "lammps", "pwmat", "fleur"]
+# CRYSTAL *output*, not the input its writer produces).  wien2k: structure files only (P lattice, every atom its own
+# site); its symmetry-reduced force format has no peer.
+STRUCTURE_ROUNDTRIP = ["vasp", "abinit", "qe", "elk", "siesta", "dftbp", "turbomole", "aims", "castep", "abacus", "lammps", "pwmat", "fleur", "wien2k"]
 
 
 def fc_unit(calc):
@@ -71,6 +72,9 @@ def structure_info(calc, symbols):
         return ("x", [symbol_map[s] for s in symbols])
     if calc == "fleur":
         return ("x", ["%d" % symbol_map[s] for s in symbols], ["fleur input authored by the simulator"])
+    if calc == "wien2k":
+        n = len(symbols)
+        return ("x", [781] * n, [0.0001] * n, [2.0] * n)
     return ("x",)
 
 
